@@ -5,6 +5,7 @@ import (
 	"go/constant"
 	"go/token"
 	"go/types"
+	"os"
 	"sort"
 	"strings"
 
@@ -1178,7 +1179,14 @@ func ruleEntryIterator(r *Run, want *types.Signature) {
 		return
 	}
 	good := true
-	fail := func(pos token.Pos, f string, a ...any) { good = false; o.Fail(r.pos(pos), f, a...) }
+	// the dominance form is the cheap sufficient argument; when it does not go through (verdicts merged
+	// in a phi, conditional pipeline call) the claims are decided path by path instead
+	fail := func(pos token.Pos, f string, a ...any) { good = false }
+	defer func() {
+		if !good {
+			ruleEntryIteratorPaths(r, o, fn, want)
+		}
+	}()
 	if !instrDominates(setFrom, pre) || !instrDominates(pre, pipe) {
 		fail(pipe.Pos(), "order SetFromRecord -> prefilter -> pipeline is not enforced by dominance")
 	}
@@ -1313,7 +1321,10 @@ func ruleEntryIteratorPaths(r *Run, o *Obligation, fn *ssa.Function, want *types
 	if f, _, ok := loadOfField(callArgs(pre)[1]); !ok || f != "Body" {
 		fail(pre.Pos(), "prefilter is applied to %s, not record.Body", describe(callArgs(pre)[1], 0))
 	}
-	w := &feWalker{Fn: fn, Inline: inlineHelpers(fn), MaxPath: 20000}
+	// helpers of Next are followed; SetFromRecord itself is an event, not a helper (its loops over the
+	// record's attributes are not part of the per-record protocol)
+	base, sfr := inlineHelpers(fn), staticCallee(setFrom)
+	w := &feWalker{Fn: fn, MaxPath: 20000, Inline: func(c *ssa.Function, d int) bool { return c != sfr && base(c, d) }}
 	ends := w.Run()
 	if w.Aborted {
 		o.Undecide(r.pos(fn.Pos()), "path enumeration aborted")
@@ -1389,6 +1400,9 @@ func ruleEntryIteratorPaths(r *Run, o *Obligation, fn *ssa.Function, want *types
 			}
 		}
 		ret, isRet := e.Term.(*ssa.Return)
+		if os.Getenv("VERIF_DEBUG_LPPIPE") != "" {
+			fmt.Fprintf(os.Stderr, "LPPIPE end: term=%T cut=%v results=%d %+v pre=%d pipe=%d\n", e.Term, e.Cut, len(e.Results), e.Results, sPre, sPipe)
+		}
 		if !isRet || e.Cut || len(e.Results) != 1 {
 			continue
 		}
